@@ -228,6 +228,7 @@ def solver_shard(spec, res, rng):
                 res.violation({"kind": "pickle", "what": "solver-pickle-raised", "config": run.cfg, "observed": repr(ex)[:300], "tb": traceback.format_exc()[-1500:], "history": run.log[-20:]})
                 continue
             run.live.append(api.Live(s2, run.live[0].cons, label="unpickled"))
+            i2 = len(run.live) - 1  # (the history before may have made copies of its own)
             run.log.append([run.clock, 0, {"op": "PICKLE-ROUNDTRIP", "s": 0}, ["ok", None]])
             res.count("solver_roundtrips")
             res.count("solver_roundtrips:" + cname)
@@ -242,7 +243,7 @@ def solver_shard(spec, res, rng):
                 if st["s"] != 0:
                     continue
                 run.step(dict(st, s=0))
-                run.step(dict(st, s=1))
+                run.step(dict(st, s=i2))
                 if run.failed:
                     break
             if not run.failed:
@@ -255,7 +256,7 @@ def solver_shard(spec, res, rng):
                     for x_ in (al.v(0), al.v(1 % al.nvars)):
                         for bound in (al.k(), al.k()):
                             c_ = [rng.choice(["ule", "uge", "ult"]), x_, bound]
-                            for lv in run.live[:2]:
+                            for lv in (run.live[0], run.live[i2]):
                                 try:
                                     lv.solver.add([run.b(c_)])
                                     lv.cons.append(c_)
